@@ -8,7 +8,10 @@ from ..oracle import isa6502 as isa
 
 BASE = 0x2000
 VALUES = [0, 1, 127, 128, 255, 256, 257, 0x0FFF, 0x7FFF, 0x8000, 0xFFFF]
-OUT_OF_DOMAIN = [-1, 65536, 70000, 2 ** 32]
+OUT_OF_DOMAIN = [-1]
+# beyond 16 bits: judged partially (see beyond_expect) - the low 8/16/32 bits of these look like small legal operands
+BEYOND = [65536, 65537, 65536 + 255, 70000, 2 ** 31, 2 ** 32 - 1, 2 ** 32, 2 ** 32 + 16, 2 ** 32 + 255, 2 ** 32 + 256,
+          2 ** 32 + 0x1234, 2 ** 48 + 5, 2 ** 63 - 1]
 OPTIONAL_OPERAND = {"asl", "lsr", "rol", "ror"}
 SEPS = {"nl": "\n", "blank": "\n\n", "cpp": "\n// c\n", "c": "\n/* c */\n"}
 
@@ -104,6 +107,29 @@ def rows_cases():
                     yield ("row", mn, form, v, radix, isa.render(mn, form, lit(v, radix)))
 
 
+def beyond_cases():
+    for mn in isa.MNEMONICS:
+        if mn in isa.BRANCHES:
+            continue
+        for form in isa.FORM_NAMES:
+            if form == "none":
+                continue
+            for v in BEYOND:
+                yield ("beyond", mn, form, v, "hex", isa.render(mn, form, lit(v, "hex")))
+
+
+def beyond_expect(mn, form, v):
+    """Operand above 65535. The property fixes: never the zero-page/one-byte encoding (the value is not 0..255), immediates
+    and one-byte-only forms are rejected, undefined combinations are rejected. Where an absolute form exists the suite pins
+    16-bit wrap-around (`lda $ffff+3`), so either a rejection or the absolute encoding of the low 16 bits is accepted.
+    Returns (must_reject, allowed_bytes_or_None)."""
+    modes = isa.ISA[mn]
+    short, long_ = isa.FORMS[form]
+    if form == "imm" or long_ not in modes:
+        return True, None
+    return False, bytes([modes[long_], v & 0xFF, (v >> 8) & 0xFF])
+
+
 def ood_cases():
     for mn in isa.MNEMONICS:
         for form in isa.FORM_NAMES:
@@ -185,6 +211,31 @@ def shard(idx, n, seed, tier, params):
     for c, r in zip(cases, res):
         acc.count("ood.observed")
         acc.count("ood.accepted" if not r.get("d") and "panic" not in r else "ood.rejected_or_panic")
+
+    # operands beyond 16 bits (partially judged)
+    cases = [c for i, c in enumerate(beyond_cases()) if i % n == idx]
+    res = ask_batch(probe, [c[5] for c in cases])
+    for c, r in zip(cases, res):
+        _, mn, form, v, radix, src = c
+        must_reject, allowed = beyond_expect(mn, form, v)
+        acc.evaluations += 1
+        acc.count("beyond.judged")
+        if "panic" in r:
+            acc.violation("beyond|%s|%s|panic" % (mn_group(mn), form), "panic on %r: %s" % (src, r["panic"]), {"src": src, "result": r})
+            continue
+        got = seg_bytes(r)
+        rejected = bool(r.get("d"))
+        if rejected:
+            acc.count("beyond.rejected")
+            continue
+        if must_reject or got != allowed:
+            acc.violation("beyond|%s|%s|%s" % (mn_group(mn), form, "accepted-illegal" if must_reject else "wrong-bytes"),
+                          "%r (operand above 65535) assembled to %s; expected %s" % (
+                              src, got.hex() if got is not None else None, "a rejection" if must_reject else "a rejection or " + allowed.hex()),
+                          {"src": src, "result": r, "expected": None if must_reject else allowed.hex()})
+        else:
+            acc.count("beyond.wrapped_absolute")
+            acc.nontriv(("beyond", mn, form, v))
 
     # (2) branches
     cases = [c for i, c in enumerate(branch_cases()) if i % n == idx]
@@ -321,6 +372,6 @@ def main(tier, seed):
              "forms x 4 separators (thorough: all 1125 forms squared; quick: representative mnemonics squared + seeded sample of "
              "the full space); random operand values/expressions at several base addresses. Non-trivial = a distinct LEGAL case "
              "(exact bytes are compared); illegal cases only need a diagnostic.",
-        assumptions=["operands outside 0..65535 are observed but not judged (the suite pins 16-bit wrap-around)",
+        assumptions=["negative operands are observed but not judged (the suite pins `lda #1-2` = A9 FF); operands above 65535 are judged partially: immediates, one-byte-only forms and undefined combinations must be rejected, the zero-page encoding must never be chosen, and where an absolute form exists either a rejection or the pinned 16-bit wrap-around (`lda $ffff+3` = AD 02 00) is accepted",
                      "isa6502.py (151 opcodes, written from the ISA) is trusted"],
         extra={"exhaustive": bool(exhaustive), "legal_rows": len(isa.legal_rows())})
